@@ -109,8 +109,24 @@ func c27Codec(k int) mcodecs.Codec {
 	}
 }
 
-// c27Feed runs the real format on the stream; files go to dir.
+// c27Feed runs the real format on the stream (files go to dir) and reads the files back.
 func c27Feed(dir string, s *c27Stream) (*c27Obs, error) {
+	obs, created, err := c27Run(dir, s)
+	if err != nil {
+		return nil, err
+	}
+	for _, p := range created {
+		seg, err := c27ReadSeg(p, true)
+		if err != nil {
+			return nil, fmt.Errorf("%s: %w", p, err)
+		}
+		obs.Segs = append(obs.Segs, *seg)
+	}
+	return obs, nil
+}
+
+// c27Run hands the samples to formatFMP4Track.write, stops at the first error like the recorder instance, and closes.
+func c27Run(dir string, s *c27Stream) (*c27Obs, []string, error) {
 	obs := &c27Obs{}
 	lg := &c27Log{}
 	ri := &recorderInstance{
@@ -152,17 +168,10 @@ func c27Feed(dir string, s *c27Stream) (*c27Obs, error) {
 		}
 	}
 	f.close()
-	for _, p := range obs.Created {
-		seg, err := c27ReadSeg(p)
-		if err != nil {
-			return nil, fmt.Errorf("%s: %w", p, err)
-		}
-		obs.Segs = append(obs.Segs, *seg)
-	}
-	return obs, nil
+	return obs, obs.Created, nil
 }
 
-func c27ReadSeg(p string) (*c27OSeg, error) {
+func c27ReadSeg(p string, checkPayload bool) (*c27OSeg, error) {
 	file, err := os.ReadFile(p)
 	if err != nil {
 		return nil, err
@@ -235,7 +244,7 @@ func c27ReadSeg(p string) (*c27OSeg, error) {
 					ns = 1
 				}
 				for _, b := range sm.Payload {
-					if b != byte(len(sm.Payload)) {
+					if checkPayload && b != byte(len(sm.Payload)) {
 						return nil, fmt.Errorf("payload bytes changed")
 					}
 				}
